@@ -42,7 +42,7 @@ import time
 
 HERE = os.path.dirname(os.path.abspath(__file__))
 PRIVATE_DRV = os.path.join(HERE, '..', 'lean', '.lake', 'build', 'bin',
-                           'lbzdrv-schedd')
+                           'lbzdrv-w7')
 FINAL_DRV = os.path.join(HERE, '..', 'lean', '.lake', 'build', 'bin', 'lbzdrv')
 
 CDEFS = ['-DKJN_LBZIP2_VERIF', '-D_XOPEN_SOURCE=700', '-D_FILE_OFFSET_BITS=64',
@@ -53,11 +53,12 @@ FIELDS = ['wu', 'os', 'eof', 'pt', 'pd', 'in', 'scan', 'retr', 'emit',
 
 
 def default_driver():
-    """$LBZDRV, else the private W7 build if present, else the final driver."""
+    """$LBZDRV, else the private W7 build (tag w7) if present, else the final
+    driver."""
     e = os.environ.get('LBZDRV')
     if e:
         return e
-    for p in (PRIVATE_DRV + '2', PRIVATE_DRV, FINAL_DRV):
+    for p in (PRIVATE_DRV, FINAL_DRV):
         if os.path.exists(p):
             return os.path.normpath(p)
     return os.path.normpath(FINAL_DRV)
